@@ -460,7 +460,8 @@ class Exec(object):
 
     def oblige_decided(self, name, ok, backend, note="", line=None, kind="decided"):
         """an obligation decided at generation time by a complete procedure (polynomial normal form, closed terms)"""
-        o = Obligation(name, kind, [], z3.BoolVal(bool(ok)), self.path_id(), line, note, self.cur_func)
+        # a refuted clause still has to be reachable: the SMT-side path condition goes with it
+        o = Obligation(name, kind, [] if ok else list(self.pc), z3.BoolVal(bool(ok)), self.path_id(), line, note, self.cur_func)
         o.backend_hint = backend
         self.obls.append(o)
 
@@ -650,7 +651,26 @@ class Exec(object):
         raise EngineLimit("index into %s" % type(v).__name__)
 
     # arithmetic with Python's exceptions
+    OPNAMES = {ast.Add: ("__add__", "__radd__"), ast.Mult: ("__mul__", "__rmul__"), ast.Sub: ("__sub__", "__rsub__")}
+
     def binop(self, op, a, b, line):
+        if isinstance(a, SObj) or isinstance(b, SObj):
+            names = self.OPNAMES.get(type(op))
+            if names is None:
+                raise EngineLimit("operator %s on objects" % type(op).__name__)
+            if isinstance(a, SObj):
+                m = self.lookup_method(a, names[0])
+                if m is not None:
+                    r = self.call(m, [b], {}, line)
+                    if r is not NOTIMPL:
+                        return r
+            if isinstance(b, SObj):
+                m = self.lookup_method(b, names[1])
+                if m is not None:
+                    r = self.call(m, [a], {}, line)
+                    if r is not NOTIMPL:
+                        return r
+            self.raise_("TypeError", line)
         if isinstance(a, bool) and not isinstance(op, (ast.BitAnd, ast.BitOr)):
             a = int(a)
         if isinstance(b, bool) and not isinstance(op, (ast.BitAnd, ast.BitOr)):
@@ -721,8 +741,9 @@ class Exec(object):
                 if not self.entails(b >= 0):
                     if not self.branch_pruned(b >= 0):
                         self.raise_("ValueError", line)
-                p = self.mk_pow2(b)
-                return SInt(T(a) / p.t)
+                b = self.name_int(b, "shift")
+                self.mk_pow2(b)
+                return sym.shr(a, b)
             if isinstance(op, ast.BitAnd):
                 return self.bitand(a, b, line)
             if isinstance(op, ast.BitOr):
@@ -1149,6 +1170,10 @@ class Exec(object):
         if isinstance(e.op, ast.USub):
             if isinstance(v, (int, SInt)):
                 return -v
+            if isinstance(v, SObj):
+                m = self.lookup_method(v, "__neg__")
+                if m is not None:
+                    return self.call(m, [], {}, e.lineno)
             if v is None:
                 self.raise_("TypeError", e.lineno)
         raise EngineLimit("unary %s on %s" % (type(e.op).__name__, type(v).__name__))
